@@ -83,7 +83,7 @@ def search(o, c, budget_s=60, size_values=(2, 3, 4, 5)):
             break
         cc = concretise(c, sizes)
         try:
-            r = verify.verify_function(cc, {"specfn_encoding": "naive"})
+            r = verify.verify_function(cc, {"specfn_encoding": "naive", "gen_budget_s": max(5, int(budget_s - (time.time() - t0)))})
         finally:
             spec.REGISTRY.pop((cc.key, cc.variant), None)
         if r.error or r.ctx is None:
